@@ -597,3 +597,70 @@ func (l *zzFnLoader) Load(ctx context.Context, key int) (int, error) { return l.
 func (l *zzFnLoader) Reload(ctx context.Context, key int, old int) (int, error) {
 	return l.reload()
 }
+
+func init() { vRegister("ZZ_C09_FailedLoadVsWrite", ZZ_C09_FailedLoadVsWrite) }
+
+// ZZ_C09_FailedLoadVsWrite: a Get of an absent key whose loader fails (error or not-found) after the clock has moved,
+// racing with an explicit write of that key. A failed load leaves the cache unchanged (C10) and the explicit write
+// stands (C09) — including its deadlines (C12): afterwards the entry holds the written value with expiration and
+// refresh times equal to the write's clock reading plus the calculators' durations, not re-armed by the failure.
+func ZZ_C09_FailedLoadVsWrite() {
+	out := vChoice("loader", 2) // 0 error, 1 not found
+	wop := vChoice("writer", 3) // 0 Set, 1 Compute->Write, 2 SetIfAbsent
+	vScenario([]string{"error", "notfound"}[out] + ";" + []string{"Set", "ComputeWrite", "SetIfAbsent"}[wop])
+	clkm := &zzAClock{}
+	clkm.now.Store(1 << 32)
+	const dExp, dRef = 100000, 1000
+	c := Must(&Options[int, int]{
+		Logger:            &NoopLogger{},
+		Clock:             clkm,
+		ExpiryCalculator:  ExpiryWriting[int, int](dExp),
+		RefreshCalculator: RefreshWriting[int, int](dRef),
+		Executor:          func(fn func()) { fn() },
+	})
+	vDaemons()
+	tick := &zzTick{}
+	const written = 700
+	loadStart, loadCalls := 0, 0
+	ld := LoaderFunc[int, int](func(ctx context.Context, key int) (int, error) {
+		loadStart = tick.now()
+		loadCalls++
+		vYield()
+		clkm.now.Add(7) // the failure is processed at a later clock reading than the write
+		if out == 1 {
+			return 0, ErrNotFound
+		}
+		return 0, zzErrLoad
+	})
+	var lerr error
+	w0 := 0
+	var tw0, tw1 int64
+	L := func() { _, lerr = c.Get(context.Background(), 1, ld) }
+	W := func() {
+		w0 = tick.now()
+		tw0 = clkm.now.Load()
+		switch wop {
+		case 0:
+			c.Set(1, written)
+		case 1:
+			c.Compute(1, func(old int, found bool) (int, ComputeOp) { return written, WriteOp })
+		case 2:
+			c.SetIfAbsent(1, written)
+		}
+		tw1 = clkm.now.Load()
+	}
+	vPar(L, W)
+	e, present := c.GetEntryQuietly(1)
+	if loadCalls == 1 {
+		vAssert(lerr != nil, "c09f.failure_reaches_the_caller")
+		if w0 > loadStart {
+			// the write began while the load was in flight (or after it): it stands, untouched by the failed load
+			vAssert(present && e.Value == written, "c09f.explicit_write_survives_the_failed_load")
+		}
+	}
+	if present && e.Value == written {
+		vAssert(e.ExpiresAtNano == tw0+dExp || e.ExpiresAtNano == tw1+dExp, "c09f.failed_load_leaves_expiration_time_of_the_written_entry")
+		vAssert(e.RefreshableAtNano == tw0+dRef || e.RefreshableAtNano == tw1+dRef, "c09f.failed_load_leaves_refresh_time_of_the_written_entry")
+	}
+	vAssert(c.cache.singleflight.getCall(1) == nil, "c09f.no_inflight_record_left")
+}
